@@ -54,7 +54,10 @@ class DiagX(SDEFunction):
         super().__init__(m=dimension, d=dimension)
 
     def __call__(self, t: float, x: np.array) -> np.array:
-        return np.diag(x)
+        x = np.asarray(x)
+        if x.ndim == 3:  # stacked values of the fine and coarse processes
+            return np.array([np.diag(xi.flatten()) for xi in x])
+        return np.diag(x.flatten())
 
 
 class LiborSDEFunction(SDEFunction):
